@@ -89,8 +89,7 @@ def explore(cfg, eng, ctx):
             ish = tuple(int(x) for x in cube.interacting_shape)
             cs = []
             aggs.compare(data, res, fmt, agg, ignore, ish, side, cs)
-            eng.assert_(z3.And(*[c for _, c, _ in cs]),
-                        "%s %s: %s format disagrees with the missing-cell rule / values" % (side, agg, fmt))
+            aggs.assert_all(eng, cs, "%s %s: %s format disagrees with the missing-cell rule / values" % (side, agg, fmt))
             results[fmt] = aggs.split_result(res, fmt)
         # cross-format consistency, stated directly
         if "nan" in results and "pair" in results:
